@@ -250,6 +250,9 @@ func (e *Exec) buildCex(label string, negated *Term) map[string]any {
 			if declaredFun["str.len"] {
 				facts = append(facts, fact{s, "len", App("str.len", IntSort, s)})
 			}
+			if declaredFun["str.ord"] {
+				facts = append(facts, fact{s, "ord", App("str.ord", IntSort, s)})
+			}
 			if declaredFun["str.trim"] {
 				facts = append(facts, fact{s, "trimlen", App("str.len", IntSort, App("str.trim", StrSort, s))})
 			}
